@@ -480,7 +480,7 @@ func TestVerifC04(t *testing.T) {
 	rep := verifkit.NewReport("C04", "c04-convergence")
 	defer rep.Finish(t)
 	rep.Rule = "histories of metadata operations (account group: contact ops on 2 contacts, enable/disable/reset, join/leave, credentials; contact group; multi-member group) written by one device or by two devices " +
-		"(causally ordered by syncing before each write, or concurrent without syncing): exhaustive over a reduced alphabet up to length 3 plus seeded random histories up to length 10/14; each history replayed on fresh reader logs by " +
+		"(causally ordered by syncing before each write, or concurrent without syncing): exhaustive over a reduced account alphabet up to length 2/3, over the contact-group alphabet up to length 3 (one writer; two alternating writers up to 2/3) and the multi-member alphabet up to 2/3, plus seeded random histories up to length 10/14; each history replayed on fresh reader logs by " +
 		"delivery plans (one batch, entry by entry, random compositions, both head orders for concurrent branches) with reopen at a random step and three re-index rounds. " +
 		"Oracle: reference latest-wins index on every delivered prefix (causal histories), equality of all replicas holding the full set, same state before/after reopen, re-index idempotent. distinct = histories"
 	rep.Assume("each history runs on a fresh synthetic group object of the right type (the stores and the index look only at the group's type, keys and secret)")
@@ -521,6 +521,28 @@ func TestVerifC04(t *testing.T) {
 		}
 	}
 	rec(nil)
+	// the (small) alphabets of contact groups and multi-member groups: every history up to length 3 resp. 2, written by one
+	// device and, for contact groups, also alternately by two devices (the order "alias key before the device announced
+	// itself" and the like must not be left to the random sample)
+	exhaust := func(typ protocoltypes.GroupType, ops []c04Op, maxLen int, writers int, label string) {
+		var walk func(prefix []c04Step)
+		walk = func(prefix []c04Step) {
+			if len(prefix) > 0 {
+				count++
+				c04RunHistory(ctx, rep, pool, rng, typ, prefix, false, 3, fmt.Sprintf("exhaustive-%s-%d", label, count))
+			}
+			if len(prefix) == maxLen || rep.ViolationCount() > 300 {
+				return
+			}
+			for _, o := range ops {
+				walk(append(append([]c04Step(nil), prefix...), c04Step{len(prefix) % writers, o}))
+			}
+		}
+		walk(nil)
+	}
+	exhaust(protocoltypes.GroupType_GroupTypeContact, c04ContactOps(), 3, 1, "contact")
+	exhaust(protocoltypes.GroupType_GroupTypeContact, c04ContactOps(), verifkit.Pick(2, 3), 2, "contact-2w")
+	exhaust(protocoltypes.GroupType_GroupTypeMultiMember, c04MultiMemberOps(), verifkit.Pick(2, 3), 1, "multimember")
 	rep.Count("exhaustive_histories", count)
 
 	// random histories
